@@ -176,6 +176,57 @@ Theorem c15_request_c : forall (key cert : Type) (cert_of : key -> cert) sign ve
 Proof. exact @request_sound_c. Qed.
 Print Assumptions c15_request_c.
 
+(* --- the receiving entry point: presence of the detached parameters (strengthening round 4) ---
+   rs / sigalg / signature are the arguments of Server.parse_authn_request / Entity.parse_logout_request as they
+   reach Request._loads: None = not passed, Some "" = a parameter that is present and empty *)
+
+(* the Signature parameter of a signed URL is accepted only together with that URL's own message value, SigAlg and
+   RelayState, PRESENCE included: rs = None exactly when the URL was signed without RelayState *)
+Theorem c15_request_binds : forall (key cert : Type) (cert_of : key -> cert) sign verify,
+  ideal cert_of sign verify ->
+  forall k v r al args own certs origdoc rs sigalg,
+  http_redirect_message sign k "SAMLRequest" v r al true = SArgs args ->
+  (forall ca, In ca certs -> ca <> CAbsent) ->
+  loads_redirect_c cert_of verify own certs true origdoc rs sigalg (get args "Signature") = true ->
+  origdoc = v /\ rs = (if is_empty r then None else Some r) /\ sigalg = al.
+Proof. exact @request_binds. Qed.
+Print Assumptions c15_request_binds.
+
+(* ... so `RelayState=` (present, empty) added to, or left of, a signed URL is never accepted *)
+Theorem c15_empty_relay_state_refused : forall (key cert : Type) (cert_of : key -> cert) sign verify,
+  ideal cert_of sign verify ->
+  forall k v r al args own certs origdoc sigalg,
+  http_redirect_message sign k "SAMLRequest" v r al true = SArgs args ->
+  (forall ca, In ca certs -> ca <> CAbsent) ->
+  loads_redirect_c cert_of verify own certs true origdoc (Some "") sigalg (get args "Signature") = false.
+Proof. exact @empty_relay_state_refused. Qed.
+Print Assumptions c15_empty_relay_state_refused.
+
+(* the URL as produced, handed over parameter by parameter (absent RelayState as None), is accepted whenever the
+   signer's certificate is published readably for the issuer, whatever is published next to it *)
+Theorem c15_request_complete : forall (key cert : Type) (cert_of : key -> cert) sign verify,
+  ideal cert_of sign verify ->
+  forall k v r a own certs, In a spec_allowed -> In (CCert (cert_of k)) certs ->
+  exists args, http_redirect_message sign k "SAMLRequest" v r (Some a) true = SArgs args
+    /\ get args "RelayState" = (if is_empty r then None else Some r)
+    /\ loads_redirect_c cert_of verify own certs true v (get args "RelayState") (get args "SigAlg")
+         (get args "Signature") = true.
+Proof. exact @request_complete. Qed.
+Print Assumptions c15_request_complete.
+
+(* necessity of `relay_state is not None` in Request._loads (and of handing relay_state over unchanged): a receiver
+   that looks at the truth value instead (Proofs.truthy: "" becomes None) accepts, for every message and allowed
+   algorithm, the URL signed without RelayState after an empty RelayState parameter was added *)
+Theorem c15_presence_test_needed : forall (key cert : Type) (cert_of : key -> cert) sign verify,
+  ideal cert_of sign verify ->
+  forall k v a own certs, In a spec_allowed -> In (CCert (cert_of k)) certs ->
+  exists args, http_redirect_message sign k "SAMLRequest" v "" (Some a) true = SArgs args
+    /\ get args "RelayState" = None
+    /\ loads_redirect_c cert_of verify own certs true v (truthy (Some "")) (get args "SigAlg")
+         (get args "Signature") = true.
+Proof. exact @truthy_accepts_added_empty. Qed.
+Print Assumptions c15_presence_test_needed.
+
 (* the ideal-signature hypotheses are satisfiable (term algebra) *)
 Theorem c15_ideal_satisfiable : ideal ta_cert_of ta_sign ta_verify.
 Proof. exact ta_ideal. Qed.
